@@ -292,6 +292,19 @@ pub fn build_top_level_matcher(
     Ok(top_level_matcher)
 }
 
+/// Makes the regex engine fold case character by character, as fnmatch() and
+/// the POSIX regex functions do. By default it also lets a character class
+/// match the two or three letters that one of its characters folds to
+/// (`-iname 'x[[:alnum:]]y'` selected "xffy", "xssy", "xsty": U+FB00 folds to
+/// "ff", U+00DF to "ss", U+FB06 to "st").
+pub(crate) fn fold_case_by_character() {
+    static ONCE: std::sync::Once = std::sync::Once::new();
+    // 0: neither INTERNAL_ONIGENC_CASE_FOLD_MULTI_CHAR nor the ASCII-only flag.
+    ONCE.call_once(|| unsafe {
+        onig_sys::onig_set_default_case_fold_flag(0);
+    });
+}
+
 /// Helper function for `build_matcher_tree`.
 fn are_more_expressions(args: &[&str], index: usize) -> bool {
     (index < args.len() - 1) && args[index + 1] != ")"
